@@ -594,7 +594,9 @@ def run_shard(shard, only=None):
             if needle in valid:
                 for transport in ('server', 'wsgi'):
                     rn = Runner(fam, h, transport)
-                    for lit in ('9' * 4300, '9' * 4301, '-' + '9' * 5000, '1' + '0' * 20000, '1e99999', '0.' + '0' * 5000 + '1', '9' * 400):
+                    nests = [('[' * n + ']' * n) for n in (50, 1000, 100000)] + [('{"k": ' * n + '1' + '}' * n) for n in (50, 1000, 100000)] if cfg['wire'] == 'json' else \
+                            [('[' * n + ']' * n) for n in (50, 1000, 20000)] + [('{k: ' * n + '1' + '}' * n) for n in (50, 1000)]
+                    for lit in ['9' * 4300, '9' * 4301, '-' + '9' * 5000, '1' + '0' * 20000, '1e99999', '0.' + '0' * 5000 + '1', '9' * 400] + nests:
                         body = valid.replace(needle, needle[:-1] + lit.encode())
                         key = [transport, 'huge-number', '%s..(%d)' % (lit[:6], len(lit))]
                         if only is not None and only != key:
